@@ -134,7 +134,7 @@ def build_batch(case):
         if sent == 'FAILED':
             batch.append(placeholder(case['system']))
         else:
-            batch.append([ScoredTree(gen_tree.tree_of_case(tc), -0.5 * (k + 1)) for k, tc in enumerate(sent)])
+            batch.append([ScoredTree(tr, -0.5 * (k + 1)) for k, tr in enumerate(gen_tree.sentence_trees(sent))])
     return batch
 
 
@@ -252,7 +252,7 @@ def build_case(data):
         if d is None:
             d = gen_tree.t_derivation(t, idx, max_leaves=5)
         n = gen_tree.size_of(d)
-        toks = [(gen_tok.t_token_ja if system == 'ja' else gen_tok.t_token_en)(t, '') for _ in range(n)]
+        toks = [gen_tok.t_token_variant(t, system, '') for _ in range(n)]
         tc = {'system': system, 'licensed': True, 'deriv': gen_tree.deriv_json(d), 'tokens': toks}
         sent = [tc]
         if t.chance(50):
